@@ -308,7 +308,7 @@ def shard_exhaustive(acc, shard, nshards, max_len, max_size):
 
 
 def shard_generated(acc, shard, nshards, n_basis, n_hist, nmax):
-    engine.hyp_run(acc, "basis", check_basis, basis_cases(4, nmax), n_basis, shard)
+    engine.hyp_run(acc, "basis", check_basis, basis_cases(4 if nmax <= 7 else 12, nmax), n_basis, shard)
     engine.hyp_run(acc, "history", check_history, history_cases(), n_hist, shard)
 
 
@@ -318,4 +318,4 @@ def run(acc, tier):
         engine.pmap(acc, shard_generated, extra=(60, 80, 7))
     else:
         engine.pmap(acc, shard_exhaustive, extra=(4, 2))
-        engine.pmap(acc, shard_generated, extra=(600, 800, 9))
+        engine.pmap(acc, shard_generated, extra=(600, 800, 8))
